@@ -430,8 +430,10 @@ impl<
                 );
             }
 
-            self.allocator.set_field(Field::Sequence, sequence + 1);
-            self.allocator.set_field(Field::FreeListHead, sequence + 1);
+            self.allocator
+                .set_field(Field::Sequence, sequence.wrapping_add(1));
+            self.allocator
+                .set_field(Field::FreeListHead, sequence.wrapping_add(1));
         } else {
             self.allocator.set_field(
                 Field::FreeListHead,
